@@ -140,6 +140,11 @@ func related(tree *jsonv.Value, q doctree.Path, m *mutate.Mutant) (bool, string)
 	if len(f) >= 2 && f[len(f)-2] == "enum" && isPrefix(f[:len(f)-1], q) {
 		return true, "member-of-the-same-enum"
 	}
+	// members of one allOf/oneOf/anyOf list are merged or discriminated as a whole: a broken member may be reported
+	// at the list's first member
+	if len(f) >= 2 && (f[len(f)-2] == "allOf" || f[len(f)-2] == "oneOf" || f[len(f)-2] == "anyOf") && isPrefix(f[:len(f)-1], q) {
+		return true, "member-of-the-same-composition"
+	}
 	// mention: the reported node (a key on the way to it or a scalar in its subtree) names the mutated node
 	mention := false
 	check := func(s string) {
